@@ -195,8 +195,15 @@ pub fn get_enumerated_type_attributes(input: &DeriveInput) -> Result<EnumeratedT
                 is_nested = true;
                 Ok(())
             } else if meta.path.is_ident("bit_bound") {
-                let format_str: syn::LitStr = meta.value()?.parse()?;
-                match format_str.value().as_ref() {
+                // `bit_bound = "16"` or the list form `bit_bound(16)` written by the IDL compiler
+                let format_str = if meta.input.peek(syn::token::Paren) {
+                    let content;
+                    syn::parenthesized!(content in meta.input);
+                    content.parse::<syn::LitInt>()?.base10_digits().to_string()
+                } else {
+                    meta.value()?.parse::<syn::LitStr>()?.value()
+                };
+                match format_str.as_ref() {
                     "8" => {
                         bit_bound = BitBound::I8;
                         Ok(())
